@@ -439,3 +439,62 @@ Section Termination.
       exists ls, s'. repeat split; auto. eapply reach_run; eauto.
   Qed.
 End Termination.
+
+(* ================================================================ every result is the sequential result *)
+Lemma skipn_rets : forall (rs q : list Z), skipn (length rs) (rs ++ q) = q.
+Proof. intros rs q. rewrite skipn_app, skipn_all, Nat.sub_diag. reflexivity. Qed.
+
+
+Theorem bq_observers : forall progs s h1 t o r h2,
+  reach bq_body (init_sys [] progs) s -> hist s = h1 ++ (t, o, r) :: h2 ->
+  bq_puts h1 = rets h1 ++ bq_before h1 /\
+  match o with
+  | BPut _ => r = RUnit
+  | BTake => exists x q', bq_before h1 = x :: q' /\ r = RVal x
+  | BDrain => r = RList (bq_before h1)
+  | BSize => r = RSize (length (bq_before h1))
+  end.
+Proof.
+  intros progs s h1 t o r h2 Hr Hh. pose proof (linearisable _ _ _ bq_body _ _ _ Hr) as L. rewrite Hh in L.
+  destruct (seq_exec_entry _ _ _ bq_body _ _ _ _ _ _ _ L) as (q & q2 & sg & H1 & Hb).
+  assert (E : bq_puts h1 = rets h1 ++ q).
+  { apply (seq_exec_inv _ _ _ bq_body (fun q h => bq_puts h = rets h ++ q) []); auto.
+    intros; eapply bq_hist_step; eauto. }
+  assert (Eq : bq_before h1 = q) by (unfold bq_before; rewrite E; apply skipn_rets). rewrite Eq. split; auto.
+  destruct o as [v| | |]; cbn in Hb.
+  - inversion Hb; auto.
+  - destruct q as [|x q']; inversion Hb; subst. eauto.
+  - inversion Hb; auto.
+  - inversion Hb; auto.
+Qed.
+
+Theorem bbq_observers : forall cap progs s h1 t o r h2,
+  reach (bbq_body cap) (init_sys [] progs) s -> hist s = h1 ++ (t, o, r) :: h2 ->
+  bbq_puts h1 = rets h1 ++ bbq_before h1 /\ length (bbq_before h1) <= cap /\
+  match o with
+  | QPut _ => r = RUnit /\ length (bbq_before h1) < cap
+  | QTake => exists x q', bbq_before h1 = x :: q' /\ r = RVal x
+  | QSize => r = RSize (length (bbq_before h1))
+  | QEmpty => r = RBool (Nat.eqb (length (bbq_before h1)) 0)
+  | QFull => r = RBool (Nat.eqb (length (bbq_before h1)) cap)
+  | QCapacity => r = RSize cap
+  end.
+Proof.
+  intros cap progs s h1 t o r h2 Hr Hh. pose proof (linearisable _ _ _ (bbq_body cap) _ _ _ Hr) as L. rewrite Hh in L.
+  destruct (seq_exec_entry _ _ _ (bbq_body cap) _ _ _ _ _ _ _ L) as (q & q2 & sg & H1 & Hb).
+  assert (E : bbq_puts h1 = rets h1 ++ q /\ bounded cap q).
+  { apply (seq_exec_inv _ _ _ (bbq_body cap) (fun q h => bbq_puts h = rets h ++ q /\ bounded cap q) []).
+    - split; [reflexivity|apply bounded_nil].
+    - intros t0 o0 s0 s' r0 sg0 h (A & Bd) Hb0. split; [eapply bbq_hist_step; eauto|eapply bbq_bounded_ret; eauto].
+    - exact H1. }
+  destruct E as (E & Bd). assert (Eq : bbq_before h1 = q) by (unfold bbq_before; rewrite E; apply skipn_rets).
+  rewrite Eq. split; auto. split; [exact Bd|].
+  destruct o as [v| | | | |]; cbn in Hb.
+  - destruct (Nat.eqb (length q) cap) eqn:Ec; inversion Hb; subst. split; auto.
+    apply Nat.eqb_neq in Ec. unfold bounded in Bd. lia.
+  - destruct q as [|x q']; inversion Hb; subst. eauto.
+  - inversion Hb; auto.
+  - inversion Hb; auto.
+  - inversion Hb; auto.
+  - inversion Hb; auto.
+Qed.
